@@ -101,6 +101,14 @@ def base_pool():
         "d_nonherm_0pm": lambda: dia([0, 1, -1], 1j, 1, 1, 1), "d_unit_pm": lambda: dia([1, -1], 0, 1j, 1j, 0),
         "d_herm_mp": lambda: dia([-1, 1], 0, 0.5j, -0.5j, 0),
     })
+    # stored entries far below the tolerance without a stored partner (a directed cycle): Hermitian by the definition, in
+    # every storage format
+    def tiny_cycle(n, fmt):
+        base = qutip.num(n, dtype="csr") + 0.5
+        cyc = qutip.Qobj(1e-13 * np.roll(np.eye(n), 1, axis=1), dtype="csr")
+        return (base + cyc).to(fmt)
+    ctors.update({"t_cycle3_csr": lambda: tiny_cycle(3, "csr"), "t_cycle4_csr": lambda: tiny_cycle(4, "csr"), "t_cycle3_dense": lambda: tiny_cycle(3, "dense"),
+                  "t_cycle3_dia": lambda: tiny_cycle(3, "dia"), "t_cycle5_csr": lambda: tiny_cycle(5, "csr")})
     for k, f in ctors.items():
         try:
             out[k] = f()
